@@ -14,6 +14,7 @@ import (
 
 	"github.com/CrowdStrike/csproto"
 	"github.com/CrowdStrike/csproto/lazyproto"
+	"google.golang.org/protobuf/runtime/protoimpl"
 	"pgregory.net/rapid"
 
 	"verifsim/coop"
@@ -81,6 +82,12 @@ func init() {
 			s.Yield(where)
 		}
 	}
+	// scheduling points inside the protobuf-go runtime (before its size-cache atomics)
+	protoimpl.VerifSetYield(func(where string) {
+		if s := active; s != nil {
+			s.Yield(where)
+		}
+	})
 }
 
 func (c *client) run(s *coop.Sched, dec *lazyproto.Decoder) {
